@@ -206,9 +206,9 @@ PROPS = {
     ),
     "C04": dict(
         module="SeliumModel.Props.C04",
-        suites=["e2ereq", "e2erep"],
+        suites=["e2ereq", "e2erep", "reqrep"],
         level="proof",
-        rule="library Requestors (1-3 streams x 1-4 clones, one concurrent request() each, 400 ms timeout) against a scripted replier speaking the wire protocol directly through a real server over loopback QUIC: replies in forward / reverse / rotated order, per request one of reply, drop, duplicate, late (after the timeout), foreign req_id; then one follow-up request per stream; each call's outcome (own reply / timeout / another request's reply) compared with the Lean model of the shared id counter and pending map; e2erep: a library Replier (string / bytes codecs, a handler that fails on one request) served by a raw requestor sending arbitrary header maps (none, empty, forged cid, req_id, extra keys) and payloads (incl. ones the request decoder rejects): headers and payload of every reply and whether listen() ended compared with the Lean replier + router-tagging model; distinct = distinct case lines",
+        rule="reqrep: the server's request/reply router with scripted peers (routing ids, eviction of failed requestor sinks; see C02); e2ereq rqdead: n requestor streams on connections of their own with equal req_ids in flight, one connection cut, its reply sent first; library Requestors (1-3 streams x 1-4 clones, one concurrent request() each, 400 ms timeout) against a scripted replier speaking the wire protocol directly through a real server over loopback QUIC: replies in forward / reverse / rotated order, per request one of reply, drop, duplicate, late (after the timeout), foreign req_id; then one follow-up request per stream; each call's outcome (own reply / timeout / another request's reply) compared with the Lean model of the shared id counter and pending map; e2erep: a library Replier (string / bytes codecs, a handler that fails on one request) served by a raw requestor sending arbitrary header maps (none, empty, forged cid, req_id, extra keys) and payloads (incl. ones the request decoder rejects): headers and payload of every reply and whether listen() ended compared with the Lean replier + router-tagging model; distinct = distinct case lines",
         trusted_base=COMMON_TRUST + [
             "tokio oneshot / timeout, the reader task's scheduling; quinn transport",
             "the server routes a reply only to the stream named by its cid (C02)",
